@@ -37,8 +37,10 @@ KINDS = ['open', 'open-ws', 'poll', 'post', 'upgrade', 'options']
 VARIANTS = ['absent', 'empty', 'exact', 'prefix', 'suffix', 'label', 'case',
             'port', 'slash', 'path', 'blank', 'null', 'foreign', 'forwarded',
             'second', 'swapscheme', 'xf-second-host', 'xf-second-proto']
-SRV = ['T', 'A']
+SRV = ['T', 'A', 'H']      # H: the asyncio server behind the real aiohttp adapter
 PRED_OK = 'http://pred.test'
+HYBRID_KEY = {'A': 'asgi-xfp-host-hybrid-origin',
+              'H': 'aiohttp-xfp-host-hybrid-origin', 'T': 'hybrid-origin'}
 
 
 def cfg_value(name):
@@ -212,6 +214,11 @@ def run_cell(rec, cell):
             origin = None
     if origin is None and variant != 'absent':
         return
+    if srv == 'H' and (host is None or (origin is not None and
+                                        origin != origin.strip())):
+        # an HTTP/1.1 request without Host never reaches the server, and
+        # blanks around a header value are not part of the value on the wire
+        return
     case = {'cell': list(cell)}
     rec.evaluations += 1
     sim = scen.make_sim(srv, server_kwargs={
@@ -262,7 +269,8 @@ def run_cell(rec, cell):
         # mechanism of known finding K6: the asyncio drivers report
         # X-Forwarded-Proto as wsgi.url_scheme, so with both forwarded headers
         # present the hybrid <X-Forwarded-Proto>://<Host> is let through
-        hybrid = (srv == 'A' and cfgname == 'none' and host is not None and
+        hybrid = (srv in ('A', 'H') and cfgname == 'none' and
+                  host is not None and
                   'X-Forwarded-Proto' in xh and 'X-Forwarded-Host' in xh and
                   origin == '%s://%s' % (xh['X-Forwarded-Proto'], host))
         ok = is_allowed(cfgname, origin, scheme, host, xh) if origin else True
@@ -274,7 +282,7 @@ def run_cell(rec, cell):
                 ws is not None and srv == 'A' and not ws.accepted and
                 ws.server_closed))
             if not refused:
-                rec.viol('asgi-xfp-host-hybrid-origin' if hybrid else
+                rec.viol(HYBRID_KEY[srv] if hybrid else
                          'disallowed-origin-admitted-' + (
                              'default' if cfgname == 'none' else cfgname),
                     'disallowed Origin answered status=%r accepted=%r exc=%r: '
@@ -308,7 +316,7 @@ def run_cell(rec, cell):
             else:
                 for v in acao:
                     if origin is None or v != origin or not ok:
-                        rec.viol('asgi-xfp-host-hybrid-origin' if hybrid
+                        rec.viol(HYBRID_KEY[srv] if hybrid
                                  else 'acao-over-grant',
                                  'Access-Control-Allow-'
                                  'Origin %r for request Origin %r (allowed=%r)'
@@ -330,11 +338,11 @@ def plan(tier, seed):
     rng = gen.mkrng('c13', seed)
     allc = list(itertools.product(range(len(CFG)), range(2),
                                   range(len(VARIANTS)), range(len(ENV)),
-                                  range(len(KINDS)), range(2)))
+                                  range(len(KINDS)), range(3)))
     if tier == 'thorough':
         chosen = allc
     else:
-        chosen = rng.sample(allc, 4000)
+        chosen = rng.sample(allc, 6000)
     rng.shuffle(chosen)
     n = 16
     return [{'cells': chosen[i::n], 'all': tier == 'thorough'}
